@@ -1,3 +1,7 @@
 import Properties.C03
 import Properties.C05
 import Properties.C07
+import Properties.C14
+import Properties.C17
+import Properties.C19
+import Properties.C20
